@@ -12,7 +12,7 @@
   * `measure_lockstep` : one measurement on both sides;
   * `go_lockstep`, `dm_equals_mixture_meas` : whole circuits.
 -/
-import GraphiqModel.Proofs.MixtureDMMeasure
+import GraphiqModel.Proofs.MixtureDMReset
 namespace Graphiq
 namespace MixDM
 open Matrix Hilbert Noise DM PRow
@@ -115,7 +115,8 @@ theorem measure_lockstep (n q : Nat) (hq : q < n) (det : Bool) (m : Mixture) (ρ
     (hρn : ρ.n = 2 ^ n) (hρ : toC n ρ = mixRho n m) (ht : wThr < Mix.total m) (hu : uniformMeas q det m = true)
     (hp : projectorsZ n q = .ok (p0, p1)) :
     ∃ ρ' o, applyMeasurement ρ p0 p1 det = .ok (some ρ', o) ∧ ρ'.n = 2 ^ n ∧
-      toC n ρ' = mixRho n (Mix.measure q det m).1 ∧ (∀ o' ∈ (Mix.measure q det m).2, o' = o) := by
+      toC n ρ' = mixRho n (Mix.measure q det m).1 ∧ (∀ o' ∈ (Mix.measure q det m).2, o' = o) ∧
+      Fixed n q o (Mix.measure q det m).1 := by
   obtain ⟨e0, e1, n0, n1⟩ := toC_projectorsZ n q hq p0 p1 hp
   have hnn : ρ.n = p0.n := by rw [hρn, n0]
   cases m with
@@ -134,7 +135,7 @@ theorem measure_lockstep (n q : Nat) (hq : q < n) (det : Bool) (m : Mixture) (ρ
         trace_re_of n ρ p0 hρn _ (by rw [hρ, e0, r2 false]; push_cast; ring)
       have t1' : (ρ.mul p1).trace.re = Mix.total ((w0, t0) :: rest) / 2 :=
         trace_re_of n ρ p1 hρn _ (by rw [hρ, e1, r2 true]; push_cast; ring)
-      refine ⟨_, det, applyMeasurement_random ρ p0 p1 det _ ht hnn t0' t1', ?_, ?_, r3⟩
+      refine ⟨_, det, applyMeasurement_random ρ p0 p1 det _ ht hnn t0' t1', ?_, ?_, r3, measure_fixed n q hq det _ _ _ hg hspec⟩
       · show (if det = true then p1 else p0).n = 2 ^ n
         cases det <;> simp [n0, n1]
       · have hsz : (Mat.smul 2 (Mat.conjBy (if det = true then p1 else p0) ρ)).n = 2 ^ n := by
@@ -150,7 +151,8 @@ theorem measure_lockstep (n q : Nat) (hq : q < n) (det : Bool) (m : Mixture) (ρ
     | false =>
       rw [hr] at hspec
       obtain ⟨r1, r2, r3, r4, r5⟩ := measure_det n q hq det (t0.zMeasure q det).2.1 _ hg hspec
-      generalize (t0.zMeasure q det).2.1 = o0 at r2 r3 r4 r5
+      have hfx := measure_fixed n q hq det _ _ _ hg hspec
+      generalize (t0.zMeasure q det).2.1 = o0 at r2 r3 r4 r5 hfx
       have t0' : (ρ.mul p0).trace.re = if o0 then 0 else Mix.total ((w0, t0) :: rest) := by
         cases o0
         · exact trace_re_of n ρ p0 hρn (Mix.total ((w0, t0) :: rest)) (by rw [hρ, e0, r3])
@@ -161,7 +163,7 @@ theorem measure_lockstep (n q : Nat) (hq : q < n) (det : Bool) (m : Mixture) (ρ
         · exact trace_re_of n ρ p1 hρn (Mix.total ((w0, t0) :: rest)) (by rw [hρ, e1, r3])
       have hpn : (if o0 = true then p1 else p0).n = 2 ^ n := by cases o0 <;> simp [n0, n1]
       have hpc : toC n (if o0 = true then p1 else p0) = projZ n q o0 := by cases o0 <;> simp [e0, e1]
-      refine ⟨_, o0, applyMeasurement_det ρ p0 p1 det o0 _ ht hnn t0' t1', hpn, ?_, r5⟩
+      refine ⟨_, o0, applyMeasurement_det ρ p0 p1 det o0 _ ht hnn t0' t1', hpn, ?_, r5, hfx⟩
       have hsz : (Mat.smul 1 (Mat.conjBy (if o0 = true then p1 else p0) ρ)).n = 2 ^ n := hpn
       rw [toC_norm n _ hsz, toC_smul, toC_conjBy n _ _ hpn, hpc, hρ, r1]
       unfold conjH
@@ -209,7 +211,7 @@ theorem measGate_lockstep (np n : Nat) (det : Bool) (op : COp) (hk : MeasKind op
       obtain ⟨p0, p1⟩ := pp
       rw [hp] at hd
       simp only at hd
-      obtain ⟨ρ', o, hm, hn', hc, _⟩ := measure_lockstep n _ hq1 det s.mix ρ p0 p1 hg hρn hρ hW hu.2 hp
+      obtain ⟨ρ', o, hm, hn', hc, _, _⟩ := measure_lockstep n _ hq1 det s.mix ρ p0 p1 hg hρn hρ hW hu.2 hp
       rw [hm] at hd
       injection hd with hd; subst hd
       exact ⟨⟨ρ', rfl, hn', hc⟩, measure_good n _ hq1 det s.mix hg⟩
@@ -226,7 +228,7 @@ theorem measGate_lockstep (np n : Nat) (det : Bool) (op : COp) (hk : MeasKind op
       obtain ⟨p0, p1⟩ := pp
       rw [hp] at hd
       simp only at hd
-      obtain ⟨ρ', o, hm, hn', hc, hall⟩ := measure_lockstep n _ hq1 det s.mix ρ p0 p1 hg hρn hρ hW hu.2 hp
+      obtain ⟨ρ', o, hm, hn', hc, hall, _⟩ := measure_lockstep n _ hq1 det s.mix ρ p0 p1 hg hρn hρ hW hu.2 hp
       rw [hm] at hd
       simp only at hd
       have hlen := Mix.measure_length (qIndex np op.r1 op.t1) det s.mix
@@ -276,6 +278,141 @@ theorem measGate_lockstep (np n : Nat) (det : Bool) (op : COp) (hk : MeasKind op
                exact this.symm
              · exact mixGood_of n _ (mapTab_ok n _ (keeps_z n _ hq2) _ hgm.ok)
                  (mapTab_real _ (fun t hr => gate_stabReal t (.Z (qIndex np op.r2 op.t2)) hr) _ (fun x hx => (hgm x hx).2.2)))
+
+/-! ### `MeasurementCNOTandReset` -/
+
+/-- the 2×2 diagonal projector `|s⟩⟨s|` -/
+noncomputable def diag2 (s : Bool) : Matrix Bool Bool ℂ := Matrix.of fun a b => if a = b ∧ a = s then 1 else 0
+
+theorem toC2_ket0bra0 : toC2 (Mat.m2 1 0 0 0) = diag2 false := by
+  ext a b; cases a <;> cases b <;> simp [toC2, b2n, Mat.m2, diag2, gqC_zero, gqC_one]
+
+theorem toC2_ket0bra1 : toC2 (Mat.m2 0 1 0 0) = sigmaX * diag2 true := by
+  ext a b
+  cases a <;> cases b <;>
+    simp [toC2, b2n, Mat.m2, diag2, sigmaX, gqC_zero, gqC_one, Matrix.mul_apply, Fintype.sum_bool]
+
+theorem oneQ_diag2 (n q : Nat) (hq : q < n) (s : Bool) : oneQ n q (diag2 s) = projZ n q s := by
+  unfold projZ
+  rw [proj_Zq n q hq s]
+  ext a b
+  rw [oneQ_apply, Matrix.diagonal_apply]
+  simp only [diag2, Matrix.of_apply]
+  by_cases hab : a = b
+  · subst hab
+    rw [if_pos (fun _ _ => rfl), if_pos rfl]
+    by_cases hs : bx a q = s
+    · rw [if_pos ⟨rfl, hs⟩, if_pos hs]
+    · rw [if_neg (fun h => hs h.2), if_neg hs]
+  · rw [if_neg hab]
+    by_cases ho : ∀ j : Fin n, j.val ≠ q → a j = b j
+    · rw [if_pos ho]
+      have hne : bx a q ≠ bx b q := fun e => hab ((bits_eq_iff_site q a b).2 ⟨ho, e⟩)
+      rw [if_neg (fun h => hne h.1)]
+    · rw [if_neg ho]
+
+theorem resetH_herm (n q : Nat) (R : HMat n) (h : Rᴴ = R) : (resetH n q R)ᴴ = resetH n q R := by
+  unfold resetH
+  exact add_herm _ _ (conjH_herm _ _ h) (conjH_herm _ _ h)
+
+/-- **`get_reset_qubit_kraus` through `apply_channel`** is the reset channel -/
+theorem dmReset_toC (n q : Nat) (hq : q < n) (ρ ρ' : Mat) (hρn : ρ.n = 2 ^ n) (hh : (toC n ρ)ᴴ = toC n ρ)
+    (h : applyChannel ρ (resetKraus n q) = .ok ρ') : toC n ρ' = resetH n q (toC n ρ) ∧ ρ'.n = 2 ^ n := by
+  unfold resetKraus applyChannel at h
+  simp only at h
+  split at h; · cases h
+  injection h with h; subst h
+  simp only [List.foldl_cons, List.foldl_nil]
+  have k0 := oneQubitGate_n n q hq (Mat.m2 1 0 0 0) rfl
+  have k1 := oneQubitGate_n n q hq (Mat.m2 0 1 0 0) rfl
+  have h0 : (Mat.zero ρ.n).n = 2 ^ n := hρn
+  obtain ⟨e1, n1⟩ := chanStep_toC n (Mat.zero ρ.n) _ ρ 1 h0 k0
+  obtain ⟨e2, n2⟩ := chanStep_toC n _ _ ρ 1 n1 k1
+  refine ⟨?_, n2⟩
+  rw [toC_hermNorm n _ n2, e2, e1, toC_zero, toC_oneQubitGate n q hq, toC_oneQubitGate n q hq, toC2_ket0bra0, toC2_ket0bra1,
+    ← oneQ_mul n q hq, oneQ_diag2 n q hq, oneQ_diag2 n q hq]
+  have hd : resetH n q (toC n ρ) = 0 + ((1 : ℚ) : ℂ) • conjH (projZ n q false) (toC n ρ)
+      + ((1 : ℚ) : ℂ) • conjH (oneQ n q sigmaX * projZ n q true) (toC n ρ) := by
+    unfold resetH
+    simp only [Rat.cast_one, one_smul, zero_add]
+    rfl
+  rw [← hd]
+  exact hermH_of_herm _ (resetH_herm n q _ hh)
+
+/-- `compile_one_gate` for `MeasurementCNOTandReset` (distinct qubits, no noise attached), both sides, flag off -/
+theorem mcrGate_lockstep (np n : Nat) (det : Bool) (op : COp) (hk : op.kind = .mcr) (hw : OpWF n np op)
+    (hne : qIndex np op.r1 op.t1 ≠ qIndex np op.r2 op.t2)
+    (s s1 : StabSt) (d d1 : DmSt) (hI : Inv n s d)
+    (hs : stabGate np n det op s = .ok s1) (hd : dmGate np n det op d = .ok d1)
+    (hu : s1.nonUniform = false) (hW : wThr < Mix.total s.mix) : Inv n s1 d1 := by
+  obtain ⟨⟨ρ, hρs, hρn, hρ⟩, hg⟩ := hI
+  have hq1 := hw.1
+  have hq2 := hw.2.1 (Or.inr (by simp [hk, Kind.isClassicalCtrl]))
+  unfold stabGate at hs
+  unfold dmGate at hd
+  simp only [hρs, hk] at hs hd
+  unfold stabClassical at hs
+  rw [if_pos ⟨hq1, hq2⟩] at hs
+  injection hs with hs; subst hs
+  simp only [Bool.or_eq_false_iff, Bool.not_eq_false'] at hu
+  cases hp : projectorsZ n (qIndex np op.r1 op.t1) with
+  | error e => rw [hp] at hd; cases hd
+  | ok pp =>
+    obtain ⟨p0, p1⟩ := pp
+    rw [hp] at hd
+    simp only at hd
+    obtain ⟨ρ', o, hm, hn', hc, hall, hfx⟩ := measure_lockstep n _ hq1 det s.mix ρ p0 p1 hg hρn hρ hW hu.2 hp
+    rw [hm] at hd
+    simp only at hd
+    have hlen := Mix.measure_length (qIndex np op.r1 op.t1) det s.mix
+    have hgm := measure_good n _ hq1 det s.mix hg
+    simp only [if_true]
+    rw [conditioned_all _ o _ _ (by rw [hlen.1, hlen.2]) hall]
+    have hh : (toC n ρ')ᴴ = toC n ρ' := by rw [hc]; exact mixRho_herm n _ hgm
+    -- the state after the conditional X on the target: `ρ2` on the DM side, `m2` on the mixture side
+    have step2 : ∀ (ρ2 : Mat),
+        (if o = true then applyUnitary ρ' ⟨1, getOneQubitGate n (qIndex np op.r2 op.t2) Mat.sigmax⟩ else .ok ρ') = .ok ρ2 →
+        ρ2.n = 2 ^ n ∧
+        toC n ρ2 = mixRho n (if o = true then Mix.mapTab (fun t => t.xGate (qIndex np op.r2 op.t2))
+          (Mix.measure (qIndex np op.r1 op.t1) det s.mix).1 else (Mix.measure (qIndex np op.r1 op.t1) det s.mix).1) ∧
+        MixGood n (if o = true then Mix.mapTab (fun t => t.xGate (qIndex np op.r2 op.t2))
+          (Mix.measure (qIndex np op.r1 op.t1) det s.mix).1 else (Mix.measure (qIndex np op.r1 op.t1) det s.mix).1) ∧
+        Fixed n (qIndex np op.r1 op.t1) o (if o = true then Mix.mapTab (fun t => t.xGate (qIndex np op.r2 op.t2))
+          (Mix.measure (qIndex np op.r1 op.t1) det s.mix).1 else (Mix.measure (qIndex np op.r1 op.t1) det s.mix).1) := by
+      intro ρ2 h2
+      cases o with
+      | false =>
+        simp only [Bool.false_eq_true, if_false] at h2 ⊢
+        injection h2 with h2; subst h2
+        exact ⟨hn', hc, hgm, hfx⟩
+      | true =>
+        simp only [if_true] at h2 ⊢
+        obtain ⟨e, hr⟩ := applyUnitary_toC n ρ' ⟨1, getOneQubitGate n (qIndex np op.r2 op.t2) Mat.sigmax⟩ hn'
+          (oneQubitGate_n n _ hq2 Mat.sigmax rfl) hh ρ2 h2
+        refine ⟨hr, ?_, ?_, mapX_fixed n _ _ hq2 hne true _ hgm.mixN hfx⟩
+        · rw [e]
+          show _ • conjH (toC n (getOneQubitGate n (qIndex np op.r2 op.t2) Mat.sigmax)) _ = _
+          rw [toC_oneQubitGate n _ hq2, toC2_sigmax, hc]
+          have := mixRho_mapGate n (.X (qIndex np op.r2 op.t2)) hq2 _ hgm.mixN
+          simp only [Rat.cast_one, one_smul]
+          exact this.symm
+        · exact mixGood_of n _ (mapTab_ok n _ (keeps_x n _ hq2) _ hgm.ok)
+            (mapTab_real _ (fun t hr => gate_stabReal t (.X (qIndex np op.r2 op.t2)) hr) _ (fun x hx => (hgm x hx).2.2))
+    cases h2 : (if o = true then applyUnitary ρ' ⟨1, getOneQubitGate n (qIndex np op.r2 op.t2) Mat.sigmax⟩ else .ok ρ') with
+    | error e => rw [h2] at hd; cases hd
+    | ok ρ2 =>
+      rw [h2] at hd
+      simp only [if_true] at hd
+      obtain ⟨n2, c2, g2, f2⟩ := step2 ρ2 h2
+      have hh2 : (toC n ρ2)ᴴ = toC n ρ2 := by rw [c2]; exact mixRho_herm n _ g2
+      cases h3 : applyChannel ρ2 (resetKraus n (qIndex np op.r1 op.t1)) with
+      | error e => rw [h3] at hd; cases hd
+      | ok r =>
+        rw [h3] at hd
+        injection hd with hd; subst hd
+        obtain ⟨e3, n3⟩ := dmReset_toC n _ hq1 ρ2 r n2 hh2 h3
+        refine ⟨⟨r, rfl, n3, ?_⟩, reset_good n _ hq1 det _ g2⟩
+        rw [e3, c2, resetH_of_fixed n _ hq1 o _ (fixed_mixRho n _ o _ f2), mixRho_reset n _ hq1 det o _ g2 f2]
 
 /-! ### flags only ever switch on -/
 
